@@ -1363,3 +1363,120 @@ func TestVerifC10Metadata(t *testing.T) {
 		}
 	})
 }
+
+// ---------------------------------------------------------------------------
+// wildcard expansion: a patch to a wildcard toFieldPath behaves like the same patch to every expanded path
+
+// TestVerifC10WildcardEquivalence is metamorphic: a FromCompositeFieldPath patch whose toFieldPath has a wildcard
+// over an ARRAY of the composed resource ("spec.items[*].f") must behave like the sequence of the same patch applied
+// to spec.items[i].f for every element i that has the field (a wildcard expands to existing fields only): it fails iff one of them fails (a failed patch must be reported, its
+// resource is not applied in that reconcile), and if none fails the results are identical. Content after a failure
+// is not compared (the patch stops at the first failing element; what it leaves behind is never applied).
+func TestVerifC10WildcardEquivalence(t *testing.T) {
+	rec := verifkit.New(t, "C10", "wildcard toFieldPath over an array of 1-4 elements whose target field is absent / a string / a number / an array / a map, source value string / array / map, merge options none / appendSlice / keepMapValues / both; oracle: wildcard patch == sequence of per-element patches (error iff some element errors; equal result otherwise); non-trivial = >=2 elements of different shapes and merge options set; distinct=(elements,value,options)")
+	rapid.Check(t, func(t *rapid.T) {
+		rec.Eval()
+		n := rapid.IntRange(1, 4).Draw(t, "n")
+		shapes := make([]string, n)
+		items := make([]any, n)
+		for i := range items {
+			shapes[i] = rapid.SampledFrom([]string{"absent", "string", "number", "array", "array", "map"}).Draw(t, "shape")
+			m := map[string]any{"id": fmt.Sprintf("e%d", i)}
+			switch shapes[i] {
+			case "string":
+				m["f"] = "old"
+			case "number":
+				m["f"] = int64(7)
+			case "array":
+				m["f"] = []any{"old"}
+			case "map":
+				m["f"] = map[string]any{"old": "x", "k": "old"}
+			}
+			items[i] = m
+		}
+		srcKind := rapid.SampledFrom([]string{"string", "array", "array", "map"}).Draw(t, "src")
+		var src any
+		switch srcKind {
+		case "string":
+			src = "new"
+		case "array":
+			src = []any{"new1", "new2"}
+		case "map":
+			src = map[string]any{"k": "new", "added": "y"}
+		}
+		var mo *xpv1.MergeOptions
+		moKind := rapid.SampledFrom([]string{"none", "append", "append", "keep", "both"}).Draw(t, "mo")
+		switch moKind {
+		case "append":
+			mo = &xpv1.MergeOptions{AppendSlice: ptr.To(true)}
+		case "keep":
+			mo = &xpv1.MergeOptions{KeepMapValues: ptr.To(true)}
+		case "both":
+			mo = &xpv1.MergeOptions{AppendSlice: ptr.To(true), KeepMapValues: ptr.To(true)}
+		}
+		newXR := func() *composite.Unstructured {
+			xr := composite.New()
+			xr.Object = map[string]any{"apiVersion": "example.org/v1", "kind": "XThing", "metadata": map[string]any{"name": "xr"}, "spec": map[string]any{"v": src}}
+			return xr
+		}
+		newCD := func() *composed.Unstructured {
+			cd := composed.New()
+			b, _ := json.Marshal(map[string]any{"apiVersion": "example.org/v1", "kind": "KindA", "metadata": map[string]any{"name": "cd"}, "spec": map[string]any{"items": items}})
+			_ = json.Unmarshal(b, &cd.Object)
+			return cd
+		}
+		mk := func(to string) v1.Patch {
+			p := v1.Patch{Type: v1.PatchTypeFromCompositeFieldPath, FromFieldPath: ptr.To("spec.v"), ToFieldPath: ptr.To(to)}
+			if mo != nil {
+				p.Policy = &v1.PatchPolicy{MergeOptions: mo}
+			}
+			return p
+		}
+		// A: one wildcard patch
+		cdA := newCD()
+		var errA error
+		c10NoPanic(t, "Apply(wildcard)", func() { errA = Apply(mk("spec.items[*].f"), newXR(), cdA, v1.PatchTypeFromCompositeFieldPath) })
+		// B: the same patch per element
+		cdB := newCD()
+		var firstErrB error
+		expanded := 0
+		for i := 0; i < n; i++ {
+			// a wildcard expands to the fields that EXIST: an element without the target field is not patched
+			if shapes[i] == "absent" {
+				continue
+			}
+			expanded++
+			var err error
+			c10NoPanic(t, "Apply(element)", func() {
+				err = Apply(mk(fmt.Sprintf("spec.items[%d].f", i)), newXR(), cdB, v1.PatchTypeFromCompositeFieldPath)
+			})
+			if err != nil && firstErrB == nil {
+				firstErrB = err
+			}
+		}
+		if expanded == 0 {
+			// nothing to expand to: the patch cannot be applied and says so
+			if errA == nil {
+				t.Fatalf("patch to spec.items[*].f over elements %v, none of which has field f, returned nil", shapes)
+			}
+			rec.Label("wildcard:nothing-to-expand")
+			return
+		}
+		rec.Labelf("wildcard:src=%s,mo=%s,fails=%v", srcKind, moKind, firstErrB != nil)
+		if (errA != nil) != (firstErrB != nil) {
+			t.Fatalf("patch spec.v (%s) -> spec.items[*].f with merge options %s over elements %v: the wildcard patch returned %v, the per-element patches %v (a patch that fails for one expanded field must fail, so that the half-patched resource is skipped)", srcKind, moKind, shapes, errA, firstErrB)
+		}
+		if errA == nil && verifkit.JSON(cdA.Object) != verifkit.JSON(cdB.Object) {
+			t.Fatalf("patch spec.v (%s) -> spec.items[*].f with merge options %s over elements %v: wildcard result differs from per-element result:\nwildcard    %s\nper element %s", srcKind, moKind, shapes, verifkit.JSON(cdA.Object), verifkit.JSON(cdB.Object))
+		}
+		distinctShapes := map[string]bool{}
+		for _, s := range shapes {
+			distinctShapes[s] = true
+		}
+		if len(distinctShapes) >= 2 && mo != nil {
+			rec.NonTrivial(verifkit.JSON([]any{shapes, srcKind, moKind}), func() any {
+				return map[string]any{"elements": shapes, "source": srcKind, "mergeOptions": moKind, "fails": firstErrB != nil}
+			})
+		}
+	})
+}
